@@ -196,7 +196,7 @@ class SimCalculateFull(Contract):
 
 class SimInnerCalculate(Contract):
     name = f"{SIM}._calculate"
-    prop = ("C01", "C18", "C17", "C02")
+    prop = ("C01", "C18", "C17", "C02", "C03")
     top_level = True
     cases = ("month", "eternity")
     descr = ("a stored value wins over the formula; otherwise the formula result (default when there is none) is cast, stored and "
@@ -211,6 +211,7 @@ class SimInnerCalculate(Contract):
     def local_contracts():
         A = lambda tag: (lambda I, ctx, a: arr(ctx, tag))
         return {
+            f"{SIM}._check_period_consistency": rec(f"{SIM}._check_period_consistency", "check_period", [("return", None), ("raise", "ValueError")]),
             f"{HOLDER}.get_array": rec(f"{HOLDER}.get_array", "get_array", [("return", None), ("return", A("stored"))]),
             f"{SIM}._check_for_cycle": rec(f"{SIM}._check_for_cycle", "check_for_cycle", [("return", None), ("raise", CYCLE), ("raise", SPIRAL)]),
             f"{SIM}._run_formula": rec(f"{SIM}._run_formula", "run_formula", [("return", None), ("return", A("formula")), ("raise", "Exception"), ("raise", SPIRAL)]),
@@ -225,6 +226,11 @@ class SimInnerCalculate(Contract):
         tags = [e["callee"] for e in log]
         puts_ok = [e for e in log if e["callee"] == "put_in_cache" and e["kind"] == "return"]
         res = []
+        chk = [e for e in log if e["callee"] == "check_period"]
+        first_ok = len(chk) == 1 and tags[0] == "check_period" and chk[0]["args"].get("period") is a["period"] and chk[0]["args"].get("variable") is w.var
+        if chk and chk[0]["kind"] == "raise":
+            return [("a-request-the-definition-period-cannot-serve-is-refused-before-anything-is-read-or-run",
+                     first_ok and tags == ["check_period"] and out[0] == "raise" and out[1] is chk[0]["exc"])]
         if out[0] == "raise":
             res.append(("nothing-stored-when-the-evaluation-fails", not puts_ok))
             res.append(("failure-comes-from-a-step-of-the-evaluation", getattr(out[1], "origin", None) is not None or
@@ -233,10 +239,10 @@ class SimInnerCalculate(Contract):
         got = [e for e in log if e["callee"] == "get_array"]
         if not got:
             return [("store-consulted-first", False)]
-        res.append(("period-checked-before-anything-is-read", True))
+        res.append(("period-checked-against-the-system's-current-definition-before-anything-is-read", first_ok))
         if got[0]["value"] is not None:
             res += [("stored-value-wins", out[1] is got[0]["value"]),
-                    ("formula-not-run-when-a-value-is-stored", tags == ["get_array"])]
+                    ("formula-not-run-when-a-value-is-stored", tags == ["check_period", "get_array"])]
             return res
         cyc = [e for e in log if e["callee"] == "check_for_cycle"]
         spiral = any(e["kind"] == "raise" and e["exc"].cls.name == "SpiralError" for e in log)
@@ -516,9 +522,10 @@ class VarDefaultArray(Contract):
     name = f"{VAR}.default_array"
     prop = ("C01",)
     top_level = True
-    cases = ("number", "enum")
-    descr = ("the default array has one element per entity, each equal to the declared default; for an enumeration it is an enum "
-             "array of that enumeration holding the default member's index")
+    cases = ("number", "enum", "str-empty", "int-zero", "bool-false")
+    descr = ("the default array has one element per entity, each equal to the declared default and of the declared dtype - also when "
+             "the default is a falsy value ('' for a text variable, 0, False); for an enumeration it is an enum array of that "
+             "enumeration holding the default member's index")
     inline = ("openfisca_core.indexed_enums.enum_array.EnumArray.__new__",)
 
     def setup(self, I, ctx, case):
@@ -533,6 +540,10 @@ class VarDefaultArray(Contract):
             v = Obj(I.resolve_qualified(VAR), {"name": "v", "value_type": enumcls, "dtype": nparr.DType("uint8"), "default_value": member,
                                                "possible_values": pv}, label="var")
             return {"self": v, "array_size": Sym(n), "__dv": idx, "__n": n, "__pv": pv, "__case": case}
+        if case in ("str-empty", "int-zero", "bool-false"):
+            vt, tag, dflt = {"str-empty": ("str", "object", ""), "int-zero": ("int", "int", 0), "bool-false": ("bool", "bool", False)}[case]
+            v = Obj(I.resolve_qualified(VAR), {"name": "v", "value_type": I.builtins[vt], "dtype": nparr.DType(tag), "default_value": dflt}, label="var")
+            return {"self": v, "array_size": Sym(n), "__dv": dflt, "__n": n, "__case": case, "__tag": tag}
         dv = ctx.fresh_real("default")
         v = Obj(I.resolve_qualified(VAR), {"name": "v", "value_type": I.builtins["float"], "dtype": nparr.DType("float"),
                                            "default_value": Sym(dv)}, label="var")
@@ -544,6 +555,12 @@ class VarDefaultArray(Contract):
             return [("returns-an-array", False)]
         r = out[1]
         i = ctx.fresh_int("i")
+        if "__tag" in a:
+            e = r.elem(i)
+            same = (type(e) is type(a["__dv"]) and e == a["__dv"]) if not isinstance(e, Sym) else B._zb(B.eq_formula(I, ctx, e, a["__dv"]))
+            return [("one-element-per-entity", B._z(r.n) == a["__n"]),
+                    ("every-element-is-the-default", z3.Implies(z3.And(i >= 0, i < a["__n"]), same) if not isinstance(same, bool) else same),
+                    ("of-the-declared-dtype", r.dtype == a["__tag"])]
         res = [("one-element-per-entity", B._z(r.n) == a["__n"]),
                ("every-element-is-the-default", z3.Implies(z3.And(i >= 0, i < a["__n"]), B.zreal(r.elem(i)) == B.zreal(a["__dv"])))]
         if a["__case"] == "enum":
@@ -591,11 +608,13 @@ def _log_encode(ctx, args):
 
 class SimCastFormulaResult(Contract):
     name = f"{SIM}._cast_formula_result"
-    prop = ("C01",)
+    prop = ("C01", "C02")
     top_level = True
-    cases = ("array-right-dtype", "array-other-dtype", "array-bool", "scalar", "enum-not-encoded", "enum-encoded")
+    cases = ("array-right-dtype", "array-other-dtype", "array-bool", "array-wider-int", "scalar", "enum-not-encoded", "enum-encoded")
     descr = ("a formula result is brought to the variable's declared type: enum values are encoded, scalars broadcast to the "
-             "population, other dtypes cast; an array already of the declared dtype is returned as it is")
+             "population, other dtypes cast - also an integer array of another width (64-bit out of numpy arithmetic for a 32-bit "
+             "variable), so that what the caller gets is what a later read of the stored value gives; an array already of the declared "
+             "dtype is returned as it is")
     inline = (f"{SIM}.get_variable_population",)
 
     def setup(self, I, ctx, case):
@@ -616,6 +635,10 @@ class SimCastFormulaResult(Contract):
             w.var.fields["dtype"] = nparr.DType("uint8")
         elif case == "enum-not-encoded":
             value = nparr.NArr(n, lambda i: Sym(F(B._z(i))), "str", "names")
+        elif case == "array-wider-int":
+            FI = z3.Function(ctx.fresh_name("WIDE"), z3.IntSort(), z3.IntSort())
+            value = nparr.NArr(n, lambda i: Sym(FI(B._z(i))), "wideint", "result")
+            w.var.fields.update({"value_type": I.builtins["int"], "dtype": nparr.DType("int")})
         else:
             BF = z3.Function(ctx.fresh_name("BOOLS"), z3.IntSort(), z3.BoolSort())
             value = nparr.NArr(n, lambda i: Sym(F(B._z(i))), "float" if case == "array-right-dtype" else "int", "result") \
@@ -649,6 +672,10 @@ class SimCastFormulaResult(Contract):
             return [("scalar-broadcast-to-the-variable's-population", len(fa) == 1 and fa[0]["args"]["self"] is w.pop),
                     ("declared-dtype", r.dtype == "float"),
                     ("every-entity-gets-the-scalar", z3.Implies(z3.And(i >= 0, i < B.zint(w.pop.fields["count"])), B.zreal(r.elem(i)) == B.zreal(a["value"])))]
+        if case == "array-wider-int":
+            x = B.zint(a["value"].elem(i))
+            return [("cast-to-the-declared-dtype", r.dtype == "int"), ("same-length", B._z(r.n) == B._z(a["value"].n)),
+                    ("same-values-where-they-fit", z3.Implies(z3.And(i >= 0, i < B._z(r.n), x >= -2**31, x < 2**31), B.zint(r.elem(i)) == x))]
         return [("cast-to-the-declared-dtype", r.dtype == "float"), ("same-length", B._z(r.n) == B._z(a["value"].n)),
                 ("same-values", z3.Implies(z3.And(i >= 0, i < B._z(r.n)), B.zreal(r.elem(i)) == B.zreal(a["value"].elem(i))))]
 
